@@ -127,6 +127,16 @@ Inductive case :=
      refuses the stop-th zone (0: none).  zones_pres / zones_wire = what the callbacks were handed, in order;
      sufs = pres[off:] for every offset Suffixes yields *)
 | CaseZones (w : bytes) (pres : option bytes) (stop : N) (zones_pres zones_wire sufs : list bytes)
+  (* dns.UnpackDomainName(msg, off) on its own — plain names, names inside a message behind other octets,
+     compression pointers (backward, forward, chains around maxCompressionPointers, loops), names that exceed
+     the 255-octet budget through pointers, malformed wires: out = (text, offset after the name) or None for
+     an error return *)
+| CaseUnpack (msg : bytes) (off : N) (out : option (bytes * N))
+  (* searchAdditionalAnswer(msg, res) and respCnameHasType(res, qtype) called directly on a hop response whose
+     answer section is `ans` — per record its type and, for a *dns.CNAME, the target: (target, child) as returned
+     (target0 / child0 are the named results' initial values: "" and false), how many records the reply's answer
+     section gained, and respCnameHasType's verdict *)
+| CaseAliasScan (ans : list (N * option bytes)) (qtype : N) (target : bytes) (child : bool) (gained : N) (has : bool)
   (* a history on one real Cache *)
 | CaseHist (pol : policy) (ops : list op).
 
@@ -246,6 +256,15 @@ Fixpoint run (pol : policy) (now : N) (s : cstore) (ops : list op) : bool :=
 
 Definition pres_of_wire (w : bytes) : option bytes := option_map present (parse_wire w).
 
+(* an observed record: its type and, for a *dns.CNAME, its target *)
+Definition rr_of_obs (o : N * option bytes) : I_RR :=
+  let hdr := mk_T_RR_Header [] (fst o) 1 0 0 in
+  match snd o with
+  | Some t => I_RR_of_CNAME (mk_T_CNAME hdr t)
+  | None => I_RR_other 0 hdr
+  end.
+Definition len_rrs (l : list I_RR) : N := N.of_nat (length l).
+
 Definition check_case (c : case) : bool :=
   match c with
   | CaseKey w pres qt qc cd p p_pres p_wire =>
@@ -268,6 +287,16 @@ Definition check_case (c : case) : bool :=
                   lbytes_eqb (take_stop stop (name_suffixes (canonical n))) zp &&
                   lbytes_eqb (label_suffixes n) sf
       | None => true
+      end
+  | CaseAliasScan ans qtype target child gained has =>
+      let rrs := map rr_of_obs ans in
+      let '(t, c) := answer_alias_scan rrs [] false in
+      bytes_eqb t target && Bool.eqb c child && (len_rrs rrs =? gained) && Bool.eqb (answer_has_type rrs qtype) has
+  | CaseUnpack msg off out =>
+      match unpack_name msg off, out with
+      | None, None => true
+      | Some (s, o), Some (s', o') => bytes_eqb s s' && (o =? o')
+      | _, _ => false
       end
   | CaseHist pol ops => run pol 0 (empty_store KB) ops
   end.
@@ -503,6 +532,30 @@ Definition spec_case (c : case) : bool :=
           | None => false
           end
       | None => true
+      end
+  | CaseAliasScan ans qtype target child gained has =>
+      (* the next sub-question is named by an alias record of THIS response and by the last one: child exactly
+         when a record of type CNAME is present, the target that of the last such record; the verdict "has the
+         type" exactly when some record has it.  Written over the observation, backwards, without the model's scan *)
+      let last_alias := find (fun o => fst o =? 5) (rev ans) in
+      match last_alias with
+      | Some o => child && bytes_eqb target (match snd o with Some t => t | None => [] end)
+      | None => negb child && bytes_eqb target []
+      end &&
+      Bool.eqb has (negb (forallb (fun o => negb (fst o =? qtype)) ans)) &&
+      (gained =? N.of_nat (length ans))
+  | CaseUnpack msg off out =>
+      (* judged on the decoded labels, without the model's walk: where the octets the decoder consumed are a
+         plain uncompressed name the text is what `present` says for its labels; a plain well-formed name that
+         runs to the end of the message is never refused *)
+      let tl := skipn (N.to_nat off) msg in
+      match out with
+      | Some (s, o) =>
+          match parse_wire (firstn (N.to_nat (o - off)) tl) with
+          | Some ls => bytes_eqb s (present ls)
+          | None => true
+          end
+      | None => match parse_wire tl with Some _ => false | None => true end
       end
   | CaseHist pol ops => spec_run pol (mk_ss [] [] [] []) ops && purge_spec [] ops
   end.
